@@ -207,6 +207,17 @@ func runSeqA(c *core.Ctx, cfg trigh.Config, v keyVariant, seq []byte, st *aStats
 			st.nonEmptyPolls++
 			st.fired += len(got)
 		}
+		if strings.Contains(cfg.Name(), "+") {
+			// a combination of triggers: which keys fire at this Poll is the contract; how often
+			// one key is listed when several children fire it at once is not (the node emits the
+			// key's current result either way), so multiplicities are not compared here
+			for k := range gm {
+				gm[k] = 1
+			}
+			for k := range wm {
+				wm[k] = 1
+			}
+		}
 		if !sameCounts(gm, wm) {
 			replay := map[string]interface{}{
 				"id": "a/" + cfg.Name() + "/" + v.name + "/" + seqString(seq), "part": "trigger-object", "config": cfg.SQL(), "variant": v.name,
@@ -280,6 +291,14 @@ func runInstancesA(c *core.Ctx, cfg trigh.Config, v keyVariant, seq []byte, st *
 		wm := map[string]int{}
 		for _, k := range want {
 			wm[k]++
+		}
+		if strings.Contains(cfg.Name(), "+") { // combinations: the set of fired keys is the contract, see runA
+			for k := range gm {
+				gm[k] = 1
+			}
+			for k := range wm {
+				wm[k] = 1
+			}
 		}
 		if sameCounts(gm, wm) {
 			return true
